@@ -28,6 +28,15 @@ TraceInit == /\ tid \in 1..Len(Traces)
 
 Ev == Traces[tid][l]
 
+\* what is read back after stop must be what the specification says was written; a discrepancy does not stop the
+\* validation of the other traces: it is recorded as a negative code in the progress register of the trace
+\* (1 rows, 2 arrays, 4 metadata, 8 nodes) and reported by the postcondition
+ReadBackCode(e) ==
+    (IF \A d \in Streams : e.rows[d] = table[d] THEN 0 ELSE 1)
+    + (IF e.arr = ExpectedArr THEN 0 ELSE 2)
+    + (IF e.meta THEN 0 ELSE 4)
+    + (IF e.nodes THEN 0 ELSE 8)
+
 Step ==
     \/ Ev.op = "event" /\ DoEvent(Ev.d) /\ nev'[Ev.d] = Ev.s
     \/ Ev.op = "stream_datum" /\ DoStreamDatum(Ev.r, Ev.a, Ev.b)
@@ -40,7 +49,9 @@ TraceNext == /\ l <= Len(Traces[tid])
              /\ Step
              /\ l' = l + 1
              /\ UNCHANGED <<tid, hist>>
-             /\ TLCSet(tid, l + 1)
+             /\ IF Ev.op = "final" /\ ReadBackCode(Ev) # 0
+                THEN TLCSet(tid, 0 - ReadBackCode(Ev))
+                ELSE TLCSet(tid, l + 1)
 
 TraceSpec == TraceInit /\ [][TraceNext]_tvars
 
@@ -48,5 +59,6 @@ Progress(t) == TLCGet(t)
 TraceAccepted ==
     \A t \in 1..Len(Traces) :
         \/ Progress(t) = Len(Traces[t]) + 1
-        \/ PrintT(<<"REJECTED", t, Progress(t)>>) /\ FALSE
+        \/ (Progress(t) < 0 /\ PrintT(<<"READBACK", t, 0 - Progress(t)>>) /\ FALSE)
+        \/ (Progress(t) >= 0 /\ PrintT(<<"REJECTED", t, Progress(t)>>) /\ FALSE)
 =============================================================================
